@@ -141,12 +141,18 @@ def run(tier='quick'):
         chk.violation(Y1, 'detect_schema|table', locstr(vsite.node), 'version is not read from Information')
 
     # ---- candidate values: every case label, +-1, and far values ------------
+    # The box is exhaustive when every test of a version component is `component <op> constant`
+    # (equality, a case label or an ordering test): the constants and their neighbours cut the
+    # integers into cells on which the outcome is constant.  Anything else - components combined
+    # arithmetically (a packed version number), compared with each other - is found by following
+    # the components through f and the repository callees that receive them.
+    from .. import callgraph
+    cg0 = callgraph.get(prog)
+    flow = _component_flow(prog, cg0, f, vid, {lid: role[cn] for lid, cn in zip(local_ids, cols)} if local_ids else None)
     labels = {'maj': set(), 'min': set(), 'pat': set()}
-    for n in walk(f.body):
-        if n.get('kind') == 'IntegerLiteral':
-            v = int(n['value'])
-            for k in labels:
-                labels[k].update((v - 1, v, v + 1))
+    for v in flow['literals']:
+        for k in labels:
+            labels[k].update((v - 1, v, v + 1))
     for k in labels:
         labels[k].update((-1, 0, 1, 2, 3, 4, 99, 2 ** 31 - 1))
     for en in enum:
@@ -154,14 +160,33 @@ def run(tier='quick'):
         labels['maj'].add(a)
         labels['min'].add(b)
         labels['pat'].add(c)
-    # only values compared by equality matter; check that no relational
-    # comparison on the version members exists (otherwise the box is not exhaustive)
-    for n in walk(f.body):
-        if n.get('kind') == 'BinaryOperator' and n.get('opcode') in ('<', '>', '<=', '>='):
-            for x in walk(n):
-                if x.get('kind') == 'MemberExpr' and x.get('name') in ('maj', 'min', 'pat'):
-                    raise AnalysisBroken('detect_schema compares a version member relationally at %s: '
-                                         'the finite box is not exhaustive for that' % locstr(n))
+    packed = flow['packed']
+    extra_cells = []
+    if packed:
+        # not exhaustive by construction: look for colliding triples.  For a packing such as
+        # maj * M + min * N + pat the triples that share an image differ by multiples of the
+        # literals and of their ratios, so cells at those offsets from every supported triple
+        # are evaluated on top of the box.
+        lits = sorted(v for v in flow['literals'] if v >= 2)
+        offs = set(lits)
+        for x in lits:
+            for y in lits:
+                if x > y >= 2 and x % y == 0:
+                    offs.add(x // y)
+        steps = {0, 1, -1}
+        for o in offs:
+            steps.update((o, -o))
+        seen_cells = set()
+        for en in enum:
+            (a, b, c), _ = _triple(en)
+            for i in (-1, 0, 1):
+                for j in sorted(steps):
+                    for k in sorted(steps):
+                        t = (a + i, b + j, c + k)
+                        if t not in seen_cells:
+                            seen_cells.add(t)
+                            extra_cells.append(t)
+        chk.extra['packed_version_arithmetic'] = [w for w, _ in packed]
     expected = {}
     for en in supported:
         t, var = _triple(en)
@@ -181,9 +206,11 @@ def run(tier='quick'):
     # restrict the box: majors near supported ones x all minors x all patches
     majs = [m for m in majs if -1 <= m <= 5 or m in (99, 2 ** 31 - 1)]
     bad_cells = []
-    for a in majs:
-        for b in mins:
-            for c in pats:
+    box_cells = [(a, b, c) for a in majs for b in mins for c in pats]
+    in_box = set(box_cells)
+    for (a, b, c) in box_cells + [t for t in extra_cells if t not in in_box]:
+        for _once in (0,):
+            for _once2 in (0,):
                 env = {('member', vid, 'maj'): a, ('member', vid, 'min'): b, ('member', vid, 'pat'): c}
                 if local_ids is not None:
                     by_role = {'maj': a, 'min': b, 'pat': c}
@@ -231,6 +258,10 @@ def run(tier='quick'):
                       'version %d.%d.%d yields %s, expected %s' % (
                           t + (sorted(res), sorted(want))),
                       facts={'triple': t, 'outcomes': sorted(map(str, res)), 'expected': sorted(map(str, want))})
+    if packed and not [t for t, _, _ in bad_cells if t not in all_enum_triples]:
+        raise AnalysisBroken('detect_schema combines or compares version components other than with a constant (%s): '
+                             'the finite box is not exhaustive for that and no colliding triple was found in it'
+                             % '; '.join(w for w, _ in packed))
     chk.extra['decision_table_cells'] = ncell
     chk.extra['box'] = {'major': majs, 'minor': mins, 'patch': pats}
 
@@ -299,12 +330,211 @@ def run(tier='quick'):
     version_stamp(prog, chk, Y5, supported)
     Y6 = chk.rule('Y6', 'the stored version triple is fetched into 64-bit integers before it is compared', floor=3)
     _version_fetch_width(prog, chk, Y6)
+    Y8 = chk.rule('Y8', 'the exception by which detection rejects a library reaches the caller as thrown: no try block '
+                        'on the way from a loader to detect_schema / detect_is_database2 has a handler that catches '
+                        'unsupported_database / database_not_found (or a base class of it) and does anything but rethrow',
+                  floor=2)
+    _rejection_type_preserved(prog, chk, Y8, cg)
     return chk.finish(
         'Finite evaluation of the decision code read from the clang AST: detect_schema is evaluated for '
         'every (major, minor, patch) in a box built from all case labels and their neighbours (%d cells; '
         'the code compares version members only by equality, checked, so the box is exhaustive), '
         'detect_is_database2 for all 8 presence combinations, the dispatch functions for all enumerators '
         'and both layouts. No code is executed.' % ncell, exhaustive=True)
+
+
+_ARITH = {'+', '-', '*', '/', '%', '<<', '>>', '&', '|', '^'}
+_RELOPS = {'<', '>', '<=', '>=', '==', '!='}
+
+
+def _component_flow(prog, cg, f, vid, local_roles):
+    """Follows the three version components through f and every repository function that receives one:
+    returns the integer literals of the functions that test a component (candidate cut points) and the sites
+    where components are combined arithmetically or compared with something that is neither a constant nor
+    another representation of the same component ('packed')."""
+    literals = set()
+    packed = []
+    seen = set()
+
+    def const_side(n):
+        n = strip(n)
+        k = n.get('kind')
+        if k in ('IntegerLiteral', 'CharacterLiteral', 'CXXBoolLiteralExpr'):
+            return True
+        if k == 'UnaryOperator' and n.get('opcode') in ('-', '+'):
+            return const_side(children(n)[0])
+        if k == 'DeclRefExpr':
+            ref = n.get('referencedDecl') or {}
+            return ref.get('kind') == 'EnumConstantDecl' or 'const' in (ref.get('type') or '')
+        return False
+
+    def visit(g, tainted, whole_ids, top=False):
+        key = (g.key, tuple(sorted((k, tuple(sorted(v))) for k, v in tainted.items())), tuple(sorted(whole_ids)))
+        if key in seen or g.body is None:
+            return
+        seen.add(key)
+        tainted = dict(tainted)
+
+        def roles(n):
+            out = set()
+            for x in walk(n):
+                k = x.get('kind')
+                if k == 'DeclRefExpr':
+                    out |= tainted.get((x.get('referencedDecl') or {}).get('id'), set())
+                elif k == 'MemberExpr' and x.get('name') in ('maj', 'min', 'pat'):
+                    b = strip(children(x)[0]) if children(x) else {}
+                    if (b.get('referencedDecl') or {}).get('id') in whole_ids:
+                        out.add(x.get('name'))
+            return out
+
+        def whole(n):
+            n = strip(n)
+            return n.get('kind') == 'DeclRefExpr' and (n.get('referencedDecl') or {}).get('id') in whole_ids
+
+        # integer locals initialised from a component are components too
+        changed = True
+        while changed:
+            changed = False
+            for d in walk(g.body):
+                if d.get('kind') == 'VarDecl' and d.get('id') not in tainted and children(d) and \
+                        re.search(r'\b(int|long|short|unsigned|int\d+_t|uint\d+_t|size_t|auto)\b', d.get('type') or ''):
+                    r = roles(children(d)[-1])
+                    if r:
+                        tainted[d['id']] = r
+                        changed = True
+        tests = top
+        for n in walk(g.body):
+            k = n.get('kind')
+            if k in ('BinaryOperator', 'CompoundAssignOperator'):
+                op = n.get('opcode') or ''
+                c = children(n)
+                if len(c) != 2:
+                    continue
+                if op in _ARITH or k == 'CompoundAssignOperator':
+                    if roles(n):
+                        packed.append(('%s: version components in arithmetic `%s` at %s' % (g.name, op, locstr(n)), n))
+                elif op in _RELOPS:
+                    ra, rb = roles(c[0]), roles(c[1])
+                    if ra or rb:
+                        tests = True
+                    if ra and rb:
+                        if not (ra == rb and len(ra) == 1):
+                            packed.append(('%s: different version components compared by `%s` at %s'
+                                           % (g.name, op, locstr(n)), n))
+                    elif (ra and not const_side(c[1])) or (rb and not const_side(c[0])):
+                        packed.append(('%s: version component compared with a non-constant by `%s` at %s'
+                                       % (g.name, op, locstr(n)), n))
+            elif k == 'SwitchStmt':
+                cond = [x for x in children(n) if x.get('kind') not in ('CompoundStmt',)]
+                if cond and roles(cond[0]):
+                    tests = True
+        if tests or any(w.startswith(g.name + ':') for w, _ in packed):
+            for n in walk(g.body):
+                if n.get('kind') == 'IntegerLiteral':
+                    literals.add(int(n['value']))
+        for e in cg.edges(g):
+            args = [a for a in children(e.node)]
+            if e.node.get('kind') in ('CallExpr', 'CXXMemberCallExpr', 'CXXOperatorCallExpr'):
+                args = args[1:]
+            for t in e.targets:
+                if t.body is None or not prog.in_repo(t.file) or t.key == g.key:
+                    continue
+                t_ids, w_ids = {}, set()
+                for p_, a in zip(t.params, args):
+                    pid = p_.get('id')
+                    if pid is None:
+                        continue
+                    if whole(a):
+                        w_ids.add(pid)
+                    else:
+                        r = roles(a)
+                        if r:
+                            t_ids[pid] = r
+                if t_ids or w_ids:
+                    visit(t, t_ids, frozenset(w_ids))
+
+    visit(f, {i: {r} for i, r in (local_roles or {}).items()}, frozenset([vid]), top=True)
+    return {'literals': literals, 'packed': packed}
+
+
+_STD_BASES = {'runtime_error': ['exception'], 'logic_error': ['exception'], 'invalid_argument': ['logic_error', 'exception'],
+              'out_of_range': ['logic_error', 'exception'], 'domain_error': ['logic_error', 'exception'],
+              'length_error': ['logic_error', 'exception'], 'system_error': ['runtime_error', 'exception'],
+              'range_error': ['runtime_error', 'exception'], 'overflow_error': ['runtime_error', 'exception']}
+
+
+def _exc_bases(prog, short):
+    """Short names of the classes an exception class of the repository derives from (std hierarchy included)."""
+    out = []
+    for q in prog.records:
+        if q.split('::')[-1] == short:
+            for b in prog.all_bases(q):
+                out.append(b.split('::')[-1])
+    for b in list(out):
+        out.extend(_STD_BASES.get(b, []))
+    return set(out)
+
+
+def _rejection_type_preserved(prog, chk, Y8, cg):
+    sinks = {}
+    for qn, exc in ((schemas.NS + 'detect_schema', 'unsupported_database'),
+                    (NS + 'detect_is_database2', 'database_not_found')):
+        fs = [x for x in prog.by_name(qn) if x.body is not None]
+        if not fs:
+            raise AnalysisBroken('Y8: %s not found' % qn)
+        for x in fs:
+            sinks[x.key] = (qn.split('::')[-1], exc)
+    vetted = ('database_exists', 'create_or_load_database')      # their database_not_found handler is judged by Y4
+    ntry = 0
+    for g in prog.functions.values():
+        if g.body is None or g.is_pattern or not prog.in_repo(g.file):
+            continue
+        tries = [n for n in walk(g.node) if n.get('kind') == 'CXXTryStmt']
+        if not tries:
+            continue
+        edges = cg.edges(g)
+        for tr in tries:
+            c = children(tr)
+            inside = {id(x) for x in walk(c[0])}
+            roots = []
+            direct = set()
+            for e in edges:
+                if id(e.node) in inside:
+                    for t in e.targets:
+                        roots.append(t)
+                        if t.key in sinks:
+                            direct.add(t.key)
+            seen = cg.reachable(roots)
+            hit = sorted({sinks[k] for k in seen if k in sinks} | {sinks[k] for k in direct})
+            if not hit:
+                continue
+            ntry += 1
+            chk.analysed(g)
+            for h in c[1:]:
+                if h.get('kind') != 'CXXCatchStmt':
+                    continue
+                hc = children(h)
+                var = hc[0] if hc and hc[0].get('kind') == 'VarDecl' else None
+                ht = (var.get('type') if var else None)
+                hs = None if ht is None else ht.replace('const ', '').replace('&', '').strip().split('::')[-1]
+                body = hc[-1] if hc else None
+                stmts = [x for x in children(body)] if body is not None and body.get('kind') == 'CompoundStmt' else []
+                rethrow_only = len(stmts) == 1 and strip(stmts[0]).get('kind') == 'CXXThrowExpr' and \
+                    not children(strip(stmts[0]))
+                for fn, exc in hit:
+                    inst = '%s: handler %s around the way to %s' % (g.name, hs or '(...)', fn)
+                    catches_it = hs is None or hs == exc or hs in _exc_bases(prog, exc)
+                    if not catches_it or rethrow_only:
+                        chk.ok(Y8, inst, locstr(h))
+                    elif hs == exc and exc == 'database_not_found' and g.name in vetted:
+                        chk.ok(Y8, inst + ' (create-or-load / exists: judged by Y4)', locstr(h))
+                    else:
+                        chk.violation(Y8, '%s|handler %s|%s' % (g.name, hs or '...', exc), locstr(h),
+                                      '%s catches %s in a try block from which %s is reached and does not rethrow it: '
+                                      'the %s by which %s rejects a library is swallowed or leaves as another type'
+                                      % (g.qualname, hs or 'everything', fn, exc, fn))
+    if ntry == 0:
+        raise AnalysisBroken('Y8: no try block reaches the detection functions (create_or_load_database has one)')
 
 
 def _variant(prog, chk, Y2, f):
